@@ -55,11 +55,14 @@ A64_LINES = {
     "load-wb": ["ldr q1, [x0, #16]!", "ldr x1, [x0], #8", "ldp q0, q1, [x2, #32]!", "ldr d2, [x3], #8", "ldp x4, x5, [x6], #16",
                 "ldr q7, [x8], #16"],
     "store-wb": ["str q1, [x0, #16]!", "str d2, [x3], #8", "stp q0, q1, [x2, #32]!", "str x4, [x5], #8"],
+    # write-back addressing on mnemonics the ISA description does not list (operand roles assigned by the default rule)
+    "wb-noisa": ["strb w3, [x0], #1", "strh w4, [x1, #2]!", "ld1 {v0.4s}, [x1], #16", "st1 {v0.2d}, [x2], #16",
+                 "ldpsw x1, x2, [x3], #8", "ld1r {v1.2d}, [x4], #8", "ldrsw x5, [x6], #4"],
     "altport": ["smlal v0.4s, v1.4h, v2.4h", "smlal2 v3.2d, v4.4s, v5.4s", "smlal v6.2d, v7.2s, v8.2s"],
     "unknown": ["fancyop x1, x2", "blorp v0.2d, v1.2d", "frobnicate d0, d1, d2"],
     "branch": ["b.ne .L2", "bne .L2"],
 }
-MEMISH = {"x86": ["mem-src", "rmw", "load", "store"], "aarch64": ["load-wb", "store-wb", "load", "store", "altport"]}
+MEMISH = {"x86": ["mem-src", "rmw", "load", "store"], "aarch64": ["load-wb", "store-wb", "load", "store", "altport", "wb-noisa"]}
 
 
 # ----------------------------------------------------------------------------------------------------------------
@@ -91,6 +94,8 @@ def floors(tier):
         "gen:mem-src": 3,
         "gen:load-wb": 3,
         "gen:altport": 1,
+        "gen:wb-noisa": 3,
+        "opt:--lcd-timeout": 5,
         "revisit_after_other": 50 if q else 700,
         "fresh_determinism_checked": 5,
         "set:models": 8 if q else 15,
@@ -142,7 +147,7 @@ def make_pool(rng, tier, size):
             # sibling of an earlier request: the same kernel file with another model and/or other options
             o = rng.choice(pool)
             isa = o["isa"]
-            req = {"isa": isa, "opts": [x for x in o["opts"] if x.startswith("--lines") or re.match(r"^\d", x)], "text": o["text"],
+            req = {"isa": isa, "opts": (o["opts"][o["opts"].index("--lines"):o["opts"].index("--lines") + 2] if "--lines" in o["opts"] else []), "text": o["text"],
                    "classes": list(o["classes"]), "kernel": o["kernel"], "sibling": True}
             req["arch"] = rng.choice(shard_archs[isa] + ([o["arch"]] if o["arch"] else []))
         elif generated:
@@ -168,6 +173,9 @@ def make_pool(rng, tier, size):
             req["opts"].append("-f" if rng.random() < 0.5 else "--consider-flag-deps")
         if rng.random() < (0.6 if "unknown" in req["classes"] else 0.2):
             req["opts"].append("--ignore-unknown")
+        if req["text"] is not None and not req.get("sibling") and rng.random() < 0.35:
+            # a small budget on a kernel whose search takes milliseconds: it must never be used up, however old the process is
+            req["opts"] += ["--lcd-timeout", "2"]
         key = digest([req["arch"], req["kernel"], req["text"], req["opts"]])
         if key in seen:
             continue
@@ -227,8 +235,11 @@ class Work(object):
             self.R.count("fresh_runs")
         return self.fresh[key]
 
-    def in_sequence(self, reqs):
-        res = cli.run_driver({"runs": [self.argv(r) for r in reqs]}, workdir=self.dir)
+    def in_sequence(self, reqs, pause_at=None):
+        runs = [self.argv(r) for r in reqs]
+        if pause_at is not None:
+            runs.insert(pause_at, {"action": "sleep", "s": 2.3})
+        res = cli.run_driver({"runs": runs}, workdir=self.dir)
         if len(res["reports"]) != len(reqs):
             # the driver process itself died (not an exception of one analysis): report what is there
             res["died"] = True
@@ -241,6 +252,11 @@ def public(req):
 
 def same(a, b):
     return a["rc"] == b["rc"] and a["out"] == b["out"] and (a["rc"] == 0 or a.get("exc") == b.get("exc"))
+
+
+def lcd_budget(req):
+    o = req["opts"]
+    return float(o[o.index("--lcd-timeout") + 1]) if "--lcd-timeout" in o else 10.0
 
 
 def timed_out(r):
@@ -375,7 +391,9 @@ def minimise(W, seq_reqs, i):
 
 def check_sequence(W, pool, seq, R, case_extra=None):
     reqs = [pool[i] for i in seq]
-    res = W.in_sequence(reqs)
+    # one pause somewhere in the sequence (the same for every replay of it): the process is older than the small budgets
+    pause_at = random.Random(digest(seq)).randrange(1, len(seq))
+    res = W.in_sequence(reqs, pause_at)
     R.count("sequences")
     isas = set(r["isa"] for r in reqs)
     if len(isas) == 2:
@@ -407,6 +425,15 @@ def check_sequence(W, pool, seq, R, case_extra=None):
             break
         got = res["reports"][pos]
         if timed_out(got) or timed_out(fresh):
+            budget = lcd_budget(req)
+            if timed_out(got) and not timed_out(fresh) and budget > 0 and got.get("elapsed", 1e9) < 0.8 * budget:
+                # the whole analysis took less than the budget, so the search cannot have used it up: the budget was not
+                # counted from the start of this analysis
+                if "lcd-budget" not in reported:
+                    reported.add("lcd-budget")
+                    R.violation("history/lcd-timeout-before-budget-used", "element %d (%s %s): in sequence the LCD search is reported as timed out after %.2fs "
+                                "of a %ss budget; a fresh process completes it" % (pos, req["arch"], " ".join(req["opts"]), got["elapsed"], budget), case)
+                continue
             R.count("lcd_timeout_elements")
             R.inconclusive += 1
             continue
